@@ -227,11 +227,21 @@ class Typer:
         return None
 
 
-def render(nf, trait, ty):
+def render(nf, trait, ty, ce=None, _depth=0):
     """Expand a (possibly composite) hole value into template variants: each a list of ('lit', s) | ('hole', nf, trait, ty)."""
     if not isinstance(nf, tuple):
         return [[("hole", nf, trait, ty)]]
     k = nf[0]
+    if trait == "display" and ce is not None and _depth < 6 and k not in ("lit", "format"):
+        # a value of a type of the crate shown through its own Display: what that writes, with the value in the place of `self`
+        summ = ce.display_summary(ty)
+        if summ is not None:
+            return render(og.nf_subst(summ, {"self": nf}), "display", "?", ce, _depth + 1)
+    if k == "match" and len(nf) >= 3 and _depth < 6:
+        out = []
+        for _pat, val in nf[2]:
+            out += render(val, trait, ty, ce, _depth + 1)
+        return out[:16]
     if k == "lit" and isinstance(nf[1], str):
         return [[("lit", nf[1])]]
     if k == "format":
@@ -240,27 +250,27 @@ def render(nf, trait, ty):
             if p[0] == "lit":
                 variants = [v + [("lit", p[1])] for v in variants]
             else:
-                subs = render(p[1], p[2], p[3] if len(p) > 3 else "?")
+                subs = render(p[1], p[2], p[3] if len(p) > 3 else "?", ce, _depth + 1)
                 variants = [v + s for v in variants for s in subs][:16]
         return variants
     if k == "ifelse" and ("lit", "") in (nf[2], nf[3]):
         # a text that is written or left out (`if wanted { format!(..) } else { "" }`): the template, or nothing
         other = nf[3] if nf[2] == ("lit", "") else nf[2]
-        return (render(other, trait, ty) + [[]])[:16]
+        return (render(other, trait, ty, ce, _depth + 1) + [[]])[:16]
     if k == "ifelse":
         a_lit = is_literal_only(nf[2])
         b_lit = is_literal_only(nf[3])
         if a_lit != b_lit:
             return [[("hole", nf, trait, ty)]]  # a guard (`if x == "Self" { "Self_" } else { x }`): one value, not two templates
-        return (render(nf[2], trait, ty) + render(nf[3], trait, ty))[:16]
+        return (render(nf[2], trait, ty, ce, _depth + 1) + render(nf[3], trait, ty, ce, _depth + 1))[:16]
     if k == "joinmap":
-        body = render(nf[2], "display", "?")
+        body = render(nf[2], "display", "?", ce, _depth + 1)
         sep = nf[3] if isinstance(nf[3], str) else ", "
         return [b + [("lit", sep)] + b for b in body][:8]
     if k == "map" and isinstance(nf[2], tuple) and nf[2][0] == "format":
-        return render(nf[2], trait, ty)
+        return render(nf[2], trait, ty, ce, _depth + 1)
     if k == "payload" and isinstance(nf[2], tuple) and nf[2][0] in ("map", "format", "ifelse"):
-        return render(nf[2], trait, ty)
+        return render(nf[2], trait, ty, ce, _depth + 1)
     return [[("hole", nf, trait, ty)]]
 
 
@@ -478,7 +488,7 @@ def run(ck, F):
         for i, (hnf, htr, hty) in enumerate(holes):
             if is_literal_only(hnf):
                 continue
-            for variant in render(CE.expand(hnf), htr, hty):
+            for variant in render(CE.expand(hnf), htr, hty, CE):
                 segs = []
                 idx = -1
                 for p in ev.parts:
